@@ -207,3 +207,26 @@ def with_alphabet(R, syms):
     """the same automaton over other symbols (e.g. '01': symbols that print like the regexp constants)"""
     mp = dict(zip(R[1], syms))
     return fa.make(R[0], [mp[a] for a in R[1]], [(p, (None if a is None else mp[a]), q) for (p, a, q) in R[2]], R[3], R[4])
+
+
+def eps_chain(k, sym='a', accept_end=True, back_edge=False):
+    """q0 -eps-> q1 -eps-> ... -eps-> qk ; qk -a-> qk ; optional epsilon back edge qk -> q(k//2)"""
+    Q = ['c%02d' % i for i in range(k + 1)]
+    T = [(Q[i], None, Q[i + 1]) for i in range(k)] + [(Q[k], sym, Q[k])]
+    if back_edge:
+        T.append((Q[k], None, Q[k // 2]))
+    T.append((Q[k // 2], 'b', Q[0]))
+    return fa.make(Q, [sym, 'b'], T, Q[0], [Q[k]] if accept_end else [Q[k // 2]])
+
+
+def thompson_nfas(rng, count, max_nodes=12):
+    """epsilon-heavy NFAs as an own Thompson construction produces them (long epsilon runs, many states)"""
+    from vt.ref import rx
+    from vt.gen import rxg
+    out = []
+    while len(out) < count:
+        t = rxg.random_tree(rng, rng.randint(2, 6), 'ab', bias=rng.choice([None, 'star', 'unit']))
+        if rx.size_iter(t) > max_nodes:
+            continue
+        out.append(rx.thompson(t, 'ab'))
+    return out
